@@ -248,8 +248,11 @@ package lang
 //@   modifies nothing
 
 // Variables.Set writes the variable table only (trusted: C11 looks inside).
+// ($varSetErr names the error it returns: a deterministic function of its arguments.)
+//@ spec $varSetErr(v ref, path string, value any, dt string) error
 //@ func (*Variables).Set [C33] trusted
 //@   modifies mapof(v.vars)
+//@   ensures result == $varSetErr(v, path, value, dataType)
 
 //@ func parseRedirectionTemp [C33]
 //@   scope functional
